@@ -308,6 +308,36 @@ def r04_8(chk, tier, units=('core', 'cbor', 'msgpack', 'ubjson', 'bson', 'csv'))
                         A.strip_targs(f.get('cls') or f['q']).split('::')[-1], f['l'], m, acc), None, f['q'])
     chk.require(n >= 60, 'R04.8: only %d option initialisers found' % n)
 
+def r04_9(chk, facts):
+    """An out-of-range number text gives an infinity whatever the character type of the text."""
+    chk.rule('R04.9', 'out-of-range doubles, char and wchar_t alike: every decstr_to_double overload that converts with std::from_chars - which '
+                      'leaves the value untouched when it reports result_out_of_range - assigns the out-parameter itself under a test of that '
+                      'error (val = +/-HUGE_VAL); an overload without it hands back whatever the caller initialised the value with '
+                      '(wjson::parse(L"1e400") gives 0 where json::parse("1e400") gives inf)', floor=2)
+    fns = [f for f in facts.functions if f['n'] == 'decstr_to_double' and f['file'].endswith('read_number.hpp') and f.get('body') is not None and not f.get('dep')]
+    n = 0
+    for fn in U.one_per_inst(fns):
+        if not any(A.is_call(c) and A.callee_name(c) == 'from_chars' for c in A.walk_no_lambda(fn['body'])): continue
+        outp = [p_ for p_ in fn['params'] if F.tname(fn, p_['t']).replace(' ', '') == 'double&']
+        if not outp: continue
+        n += 1
+        chk.analysed(fn)
+        g = C.CFG(fn['body'])
+        ok = False
+        for nd in g.rpo:
+            if nd.kind != 'stmt' or not isinstance(nd.ast, dict): continue
+            x = A.strip(nd.ast)
+            if x is None or x.get('k') != 'BinaryOperator' or x.get('op') != '=' or (A.strip(x.get('lhs'), casts=True) or {}).get('id') != outp[0]['id']: continue
+            for a, lab, e in g.guards(nd):
+                if lab is True and 'result_out_of_range' in A.text(a) and '==' in (A.strip(a, casts=True) or {}).get('oop', (A.strip(a, casts=True) or {}).get('op', '')): ok = True
+        ct = F.tname(fn, fn['params'][0]['t'])
+        site = U.site(fn, 'out of range (%s)' % ct)
+        if ok: chk.ok('R04.9', site, {'function': fn['q'], 'text_type': ct})
+        else:
+            chk.fail('R04.9', site, fn['file'], fn['l'], 'decstr_to_double(%s, ...) converts with std::from_chars and never assigns `%s` when the result is out of range: the caller keeps its initial value '
+                     '(0) where the other overload gives +/-HUGE_VAL, so the same number text decodes differently as wide text' % (ct, outp[0]['n']), None, fn['q'])
+    chk.require(n >= 2, 'R04.9: only %d from_chars based decstr_to_double overloads found' % n)
+
 def r04_4(chk, facts):
     """Multi-word addition/subtraction of basic_bigint: every wrapping word operation feeds the carry/borrow."""
     chk.rule('R04.4', 'bigint carry capture: in the word loops of basic_bigint::operator+= and operator-=, every `x = a + b` (resp. `a - b`) on words is '
@@ -477,6 +507,7 @@ def run(chk, tier, only_rule=None):
     r04_2(chk, facts)
     r04_3(chk, facts)
     r04_8(chk, tier)
+    r04_9(chk, facts)
     r04_4(chk, facts)
     r04_5(chk, facts)
     r04_6(chk, facts)
